@@ -141,11 +141,36 @@ class Gen:
         if w > 1 and r.random() < 0.25:
             a = r.randrange(w)
             b = r.randint(a + 1, w)
+            if b - a > 1 and r.random() < 0.4:
+                # a slice of a slice (byte lane of a half word ...)
+                c = r.randrange(b - a)
+                d = r.randint(c + 1, b - a)
+                return ["slice", ["slice", ["sig", ti], a, b], c, d]
             return ["slice", ["sig", ti], a, b]
         return ["sig", ti]
 
+    def lanes(self, ti, pool):
+        """several assignments of one block to different sub-slices of the same inner slice of the target (byte enables of a word):
+        all of them take effect at the same edge"""
+        r = self.rng
+        w = self.sigs[ti]["w"]
+        a = r.randrange(w - 1)
+        b = r.randint(a + 2, w)
+        n = b - a
+        cut = r.randint(1, n - 1)
+        out = []
+        for (c, d) in ((0, cut), (cut, n)):
+            self._root = True
+            e = self.expr(pool, 1, True)
+            self._root = False
+            st = ["assign", ["slice", ["slice", ["sig", ti], a, b], c, d], e]
+            out.append(st if r.random() < 0.5 else ["if", self.expr(pool, 1, False), [st], [], []])
+        return out
+
     def stmts(self, ti, pool, depth):
         r = self.rng
+        if depth > 0 and self.sigs[ti]["w"] >= 3 and r.random() < 0.12:
+            return self.lanes(ti, pool)
         c = r.choice(["assign", "assign", "if", "case"]) if depth > 0 else "assign"
         if c == "assign":
             self._hostile_used = False
